@@ -367,7 +367,7 @@ def _owner(ctx, server, put, remove):
     index = ctx.index
     mods = [index.module(K.SCHED), index.module(K.LOADER),
             index.module(K.MASTER)]
-    if ctx.tier == 'thorough':
+    if ctx.tier in ('quick', 'thorough'):   # whole-package clause, cheap enough for every run
         mods = [m for m in index.modules.values()
                 if m.name.startswith('treadmill.') and
                 ('treadmill.scheduler' in m.imports.values() or
@@ -596,7 +596,7 @@ def _conversion(ctx):
            construct='resources: parsers')
     # every vector handed to the scheduler comes from resources()
     mods = [index.module(K.LOADER), index.module(K.MASTER)]
-    if ctx.tier == 'thorough':
+    if ctx.tier in ('quick', 'thorough'):   # whole-package clause, cheap enough for every run
         mods = [m for m in index.modules.values()
                 if 'treadmill.scheduler' in m.imports.values()]
     seen = 0
@@ -882,16 +882,46 @@ def _declared_capacity(ctx):
     server = ctx.index.get_class(K.SCHED, 'Server')
     same = ctx.index.find_method(server, 'is_same') if server else None
     ctx.require(same is not None, 'Server.is_same', rule='C01.5')
-    text = N.txt(K.expr_of_function(same.raw) or ast.Constant(value=None))
+    whole = K.expr_of_function(same.raw) or ast.Constant(value=None)
+    text = N.txt(whole)
+    # the capacity conjunct is an equality in every dimension (a server that
+    # declares less in one dimension is a different server), as the repo's
+    # own vector helpers define it
+    vnz = N.Normaliser(N.VecHelpers(same.module))
+    parts = whole.values if isinstance(whole, ast.BoolOp) and isinstance(
+        whole.op, ast.And) else [whole]
+    cap_eq = False
+    for part in parts:
+        if 'init_capacity' not in N.txt(part):
+            continue
+        try:
+            key = vnz.atom(part).key
+        except Exception:           # pylint: disable=broad-except
+            continue
+        if key[0] == 'vec' and key[1] == 'ALL' and key[2] == '==':
+            cap_eq = True
+        if key[0] == 'cmp' and key[1] == '==':
+            cap_eq = True
     ctx.ob('C01.5', same, None,
-           'init_capacity' in text and 'labels' in text,
-           'is_same compares the partition labels and the declared capacity '
-           '(%s)' % text[:100], construct='is_same covers capacity')
+           cap_eq and 'labels' in text,
+           'is_same compares the partition labels and requires the declared '
+           'capacity to be equal in every dimension (%s)' % text[:100],
+           construct='is_same covers capacity')
 
 
 def check(ctx):
     _model_exit(ctx)
     _declared_capacity(ctx)
+    # C01.3 OWNER: what Server.remove gives back is what Server.put took -
+    # the demand of an instance is set by its constructor and never
+    # afterwards, in place or otherwise (the manifest of a placed instance
+    # may be rewritten; what was subtracted from its server stays)
+    from . import c04
+    c04.fixed_after_construction(
+        ctx, 'C01.3', 'demand',
+        'the demand of an instance is set by its constructor only',
+        'the demand of a (possibly placed) instance is changed: Server.remove '
+        'gives back another amount than Server.put took')
     nz, server, _node_cls, put, remove, pred = _roles(ctx)
     _admission(ctx, nz, put, pred)
     _pair(ctx, put, remove)
